@@ -1011,7 +1011,7 @@ func restart(c *core.Case) {
 		hs[0].From, hs[0].Kind = "", "no-from"
 	}
 	estTo, estFrom := hs[0].To, hs[0].From
-	firstBad := -1
+	firstBad, badAttr := -1, ""
 	for i := 1; i < 3; i++ {
 		h := addrChoice{To: peerTo.String(), From: peerFrom.String(), Kind: "same"}
 		if recv && estFrom == "" {
@@ -1039,19 +1039,19 @@ func restart(c *core.Case) {
 			}
 		}
 		hs[i] = h
-		changed := false
+		changed := ""
+		if h.To != "" && !mustJID(h.To).Equal(mustJID(estTo)) {
+			changed = "to"
+		}
 		if h.From != "" {
 			if estFrom == "" {
 				estFrom = h.From
 			} else if !mustJID(h.From).Equal(mustJID(estFrom)) {
-				changed = true
+				changed = "from"
 			}
 		}
-		if h.To != "" && !mustJID(h.To).Equal(mustJID(estTo)) {
-			changed = true
-		}
-		if changed && firstBad < 0 {
-			firstBad = i
+		if changed != "" && firstBad < 0 {
+			firstBad, badAttr = i, changed
 		}
 	}
 	c.Sample(map[string]any{"part": "restart", "role": role(recv), "ws": ws, "s2s": s2s, "origin": origin.String(), "location": location.String(), "headers": hs, "first_changed_header": firstBad + 1})
@@ -1113,7 +1113,7 @@ func restart(c *core.Case) {
 	// header number firstBad+1 changes an established address: the features of
 	// that stream (index firstBad) must not be negotiated
 	if err == nil || n > firstBad {
-		c.Violate("hdr:restart:"+role(recv)+":"+strings.SplitN(hs[firstBad].Kind, "-", 2)[0]+"-changed",
+		c.Violate("hdr:restart:"+role(recv)+":"+badAttr+"-changed",
 			"%s: header %d after %d restart(s) carries to=%q from=%q although to=%q from=%q were established; constructor error=%v, %d feature(s) negotiated (at most %d allowed); headers %+v",
 			role(recv), firstBad+1, firstBad, hs[firstBad].To, hs[firstBad].From, estTo, estFromOf(hs, firstBad), err, n, firstBad, hs)
 		return
@@ -1170,7 +1170,12 @@ func streamErr(c *core.Case) {
 		errEl = `<?xml version='1.0'?>` + errEl
 	}
 	origin, location := genJID(r, true, r.Intn(2)), genJID(r, false, 0)
+	streamErrCase(c, ws, recv, afterRestart, cond, errEl, origin, location)
+}
+
+func streamErrCase(c *core.Case, ws, recv, afterRestart bool, cond, errEl string, origin, location jid.JID) {
 	c.Sample(map[string]any{"part": "stream-error", "role": role(recv), "ws": ws, "after_restart": afterRestart, "condition": cond, "sent": errEl})
+	c.Count("stream_error_cases", 1)
 	log := &hspeer.Log{}
 	fs := restartFeatures(log)
 	ctx := context.Background()
@@ -1207,7 +1212,6 @@ func streamErr(c *core.Case) {
 	if p {
 		return
 	}
-	c.Count("stream_error_cases", 1)
 	c.Sig("streamerr|%s|ws=%v|restart=%v|%s", role(recv), ws, afterRestart, cond)
 	var se stream.Error
 	switch {
@@ -1242,7 +1246,6 @@ func bindInit(c *core.Case) {
 	if err != nil {
 		origin = jid.MustParse("me@example.net/res")
 	}
-	location := origin.Domain()
 	replyKind := []string{"result", "result", "result", "result-other-resource", "result-special", "error", "wrong-id", "type-get", "type-set", "no-type", "truncated", "text", "result-no-jid", "other-element", "wrong-ns", "error-no-child"}[r.Intn(16)]
 	assigned := origin
 	switch replyKind {
@@ -1254,6 +1257,11 @@ func bindInit(c *core.Case) {
 	if assigned.Resourcepart() == "" {
 		assigned, _ = origin.WithResource("assigned")
 	}
+	bindInitCase(c, ws, origin, replyKind, assigned)
+}
+
+func bindInitCase(c *core.Case, ws bool, origin jid.JID, replyKind string, assigned jid.JID) {
+	location := origin.Domain()
 	c.Sample(map[string]any{"part": "bind-initiator", "ws": ws, "origin": origin.String(), "reply": replyKind, "assigned": assigned.String()})
 	var request []byte
 	iqns := ""
@@ -1550,12 +1558,36 @@ func runCase(c *core.Case) {
 	}
 }
 
+func witnessUnescaped(c *core.Case) {
+	to, from := "example.net", "me@example.net/a'b<c&d"
+	c.Sample(map[string]any{"part": "emit-direct", "ws": false, "xmlns": hspeer.NSClient, "to": to, "from": from})
+	info := stream.Info{XMLNS: hspeer.NSClient}
+	var buf rwBuf
+	var err error
+	if c.Guard("stream.Send", func() {
+		err = intstream.Send(&buf, &info, false, stream.DefaultVersion, "", to, from, "")
+	}) || err != nil {
+		return
+	}
+	judgeEmitted(c, "internal/stream.Send", buf.Bytes(), emitWant{NS: hspeer.NSClient, To: to, From: from}, true)
+}
+
+func witnessBindResource(c *core.Case) {
+	o := jid.MustParse("me@example.net/res")
+	bindInitCase(c, false, o, "result", o)
+}
+
+func witnessStreamError(c *core.Case) {
+	errEl := `<stream:error xmlns:stream='` + hspeer.NSStream + `'><host-unknown xmlns='` + hspeer.NSStreamErr + `'/></stream:error>`
+	streamErrCase(c, false, false, false, "host-unknown", errEl, jid.MustParse("me@example.net"), jid.MustParse("example.net"))
+}
+
 // Prop returns the C12 check.
 func Prop() *core.Prop {
 	return &core.Prop{
 		ID:    "C12",
 		Level: core.Exploration,
-		Rule: "cases rotate over nine parts: headers emitted by internal/stream.Send and by sessions of both roles (TCP and WebSocket framing, c2s and s2s, addresses with XML-special resourceparts, language tags, ids) parsed by an independent strict start-tag scanner and compared with the inputs; two library sessions connected to each other; generated incoming headers (0-2 mutations of a canonical header: element name/namespace/prefix, content namespace, version strings, id, addresses, attribute spelling) given to internal/stream.Expect and to sessions of both roles and judged by a reference predicate in the 'accepted implies valid' direction; three-stream negotiations through instrumented restarting features with unchanged/changed/absent addresses; stream errors in place of a header; resource binding on both roles against every reply/request/callback class. distinct = (part, role, framing, input class, outcome).",
+		Rule:  "cases rotate over nine parts: headers emitted by internal/stream.Send and by sessions of both roles (TCP and WebSocket framing, c2s and s2s, addresses with XML-special resourceparts, language tags, ids) parsed by an independent strict start-tag scanner and compared with the inputs; two library sessions connected to each other; generated incoming headers (0-2 mutations of a canonical header: element name/namespace/prefix, content namespace, version strings, id, addresses, attribute spelling) given to internal/stream.Expect and to sessions of both roles and judged by a reference predicate in the 'accepted implies valid' direction; three-stream negotiations through instrumented restarting features with unchanged/changed/absent addresses; stream errors in place of a header; resource binding on both roles against every reply/request/callback class. distinct = (part, role, framing, input class, outcome).",
 		Assumptions: []string{
 			"the strict start-tag scanner in props/c12/strict.go implements XML 1.0 well-formedness of a prolog and one start tag (no '<' in attribute values, well-formed references, unique attributes, bound prefixes)",
 			"a valid stream id is drawn from letters, digits and -_.+/=: (the library only ever emits ids it generated itself); addresses are any address jid.Parse accepts",
@@ -1569,6 +1601,11 @@ func Prop() *core.Prop {
 			return 21000
 		},
 		Run: runCase,
+		Witnesses: map[string]func(*core.Case){
+			"hdr:emit:unescaped:addr":                         witnessUnescaped,
+			"hdr:bind:request-resource":                       witnessBindResource,
+			"panic:internal/stream.(*reader).Token:nil-deref": witnessStreamError,
+		},
 		Require: []string{"emit_direct", "emit_session_initiator", "emit_session_receiver", "emitted_headers_parsed", "lib2lib_established",
 			"accept_direct", "accept_session", "valid_headers_accepted", "invalid_headers_refused", "refused:version", "refused:no-id", "refused:name", "refused:content-ns",
 			"restart_cases", "restart_unchanged_established", "restart_changed_address_cases",
